@@ -219,6 +219,11 @@ func ilCase1(c *h.Ctx, cs *ilCase) {
 	model := splitSexps(m.Call("(C02 analyzeil " + strings.Join(steps, " ") + ")"))
 	c.Res.ModelCases++
 	for i := range real {
+		if i < len(model) && real[i] != model[i] && strings.HasPrefix(real[i], "(err") && strings.HasPrefix(model[i], "(err") {
+			// both reject; different reason named (see corr.go)
+			c.Stat("il:agree-err-different-class")
+			continue
+		}
 		if i >= len(model) || real[i] != model[i] {
 			mm := "<none>"
 			if i < len(model) {
